@@ -145,11 +145,67 @@ func markAtom(in inside, a string, start int) {
 	}
 }
 
+// pieces that strings, |symbols| and comments are composed of: plain text,
+// every delimiter of the grammar where it does not delimit, characters of 2,
+// 3 and 4 bytes, and code points that text tools like to treat specially
+// (byte order mark / zero width no-break space, line separator, no-break
+// space, replacement character, soft hyphen).
+var pieces = []string{"a", "Bc", "x y", " ", "0", "(", ")", ";", "'", "`", ",", ",@", "#", "#(", "@", ".", ":", "é", "ß", "λ", "日本", "\U0001F600",
+	"\ufeff", "\u2028", "\u00a0", "\ufffd", "\u00ad", "\ufeffx", "q\ufeff", "\n", "\t", "  "}
+
+func compose(r *tape.Rand, extra []string) string {
+	var b strings.Builder
+	for i, n := 0, r.Intn(6); i < n; i++ {
+		if len(extra) > 0 && r.Pct(25) {
+			b.WriteString(extra[r.Intn(len(extra))])
+		} else {
+			b.WriteString(pieces[r.Intn(len(pieces))])
+		}
+	}
+	return b.String()
+}
+
+func genString(r *tape.Rand) string {
+	return `"` + compose(r, []string{`\"`, `\\`, `\t`, `\n`, "|", "#|", "|#"}) + `"`
+}
+
+func genBarSymbol(r *tape.Rand) string {
+	return "|" + compose(r, []string{`\|`, `"`, "#"}) + "|"
+}
+
+func genComment(r *tape.Rand) string {
+	if r.Pct(50) {
+		return ";" + strings.ReplaceAll(compose(r, []string{`"`, "|", "#|", "|#", `\`}), "\n", " ") + "\n"
+	}
+	body := compose(r, []string{`"`, `\`, "| ", " #"})
+	body = strings.ReplaceAll(strings.ReplaceAll(body, "|#", "| #"), "#|", "# |")
+	if strings.HasSuffix(body, "|") || strings.HasSuffix(body, "#") {
+		body += " "
+	}
+	if strings.HasPrefix(body, "#") || strings.HasPrefix(body, "|") {
+		body = " " + body
+	}
+	return "#|" + body + "|#"
+}
+
+func pickComment(r *tape.Rand) string {
+	if r.Pct(50) {
+		return genComment(r)
+	}
+	return comments[r.Intn(len(comments))]
+}
+
 func genAtom(r *tape.Rand) string {
 	switch r.Intn(10) {
 	case 0, 1, 2:
+		if r.Pct(20) {
+			return genBarSymbol(r)
+		}
 		return symbols[r.Intn(len(symbols))]
 	case 3, 4:
+		if r.Pct(50) {
+			return genString(r)
+		}
 		return strs[r.Intn(len(strs))]
 	case 5:
 		return chars[r.Intn(len(chars))]
@@ -180,7 +236,7 @@ func genForm(r *tape.Rand, depth int, b *strings.Builder, in inside) {
 			genForm(r, depth-1, b, in)
 			if r.Pct(6) {
 				b.WriteString(" ")
-				b.WriteString(comments[r.Intn(len(comments))])
+				b.WriteString(pickComment(r))
 			}
 		}
 		if n >= 1 && open == "(" && r.Pct(12) {
@@ -206,7 +262,7 @@ func genText(r *tape.Rand, in inside) string {
 			b.WriteString(seps[r.Intn(len(seps))])
 		}
 		if r.Pct(8) {
-			b.WriteString(comments[r.Intn(len(comments))])
+			b.WriteString(pickComment(r))
 		}
 		genForm(r, 3, &b, in)
 	}
@@ -537,6 +593,26 @@ func reference(c *Case, front string) outcome {
 	})
 }
 
+// canaryText is read after abandoned reads; its tokens are valid in every
+// *read-base* the generator uses (2..36) and denote the same kinds of objects.
+const canaryText = "gamma-ray (delta 34) \"s\" "
+
+func canary(c *Case, n int) outcome {
+	s := scopeFor(c)
+	return capture(func() ([]slip.Object, int) {
+		switch n % 3 {
+		case 1:
+			code, _ := slip.ReadStream(strings.NewReader(canaryText), s)
+			return code, 0
+		case 2:
+			code, _ := slip.ReadOne([]byte(canaryText), s)
+			rest := slip.ReadString(canaryText[len("gamma-ray"):], s)
+			return append(code, rest...), 0
+		}
+		return slip.ReadString(canaryText, s), 0
+	})
+}
+
 func runFront(c *Case, front string, p Plan) (outcome, *source) {
 	s := scopeFor(c)
 	src := &seekSource{source{data: c.Text, plan: p}}
@@ -850,6 +926,7 @@ func (e *engine) Execute(raw json.RawMessage) (vd harness.Verdict) {
 			return
 		}
 	}
+	canRef := canary(&c, 0)
 	textHash := fnv.New64a()
 	_, _ = textHash.Write(c.Text)
 	th := textHash.Sum64()
@@ -901,6 +978,18 @@ func (e *engine) Execute(raw json.RawMessage) (vd harness.Verdict) {
 			h := fnv.New64a()
 			_, _ = h.Write([]byte(planKey(front, p)))
 			vd.Hashes = append(vd.Hashes, h.Sum64()^th)
+		}
+		if got.kind != "objects" || src.errFired > 0 || vd.Evals%8 == 0 {
+			// History independence: what a text denotes must not depend on
+			// the reads that came before it - in particular not on a read
+			// that was abandoned in the middle of a token (error, parse
+			// condition, incomplete text). A fixed canary text is read right
+			// after such a read, alternately as a string and as a stream.
+			vd.Probes["canary_reads"]++
+			if cg := canary(&c, vd.Probes["canary_reads"]); !(cg.kind == canRef.kind && sameObjects(cg, canRef)) {
+				return viol("history-dependence", "text %q via %s with plan %+v ended with %s; the next read, of %q, then gave %s instead of %s",
+					c.Show, front, p, got, canaryText, cg, canRef)
+			}
 		}
 		if p.ErrAfter >= 0 && src.errFired > 0 && got.kind != "injected-error" && got.kind != "go-panic" {
 			// the reader was handed the error: it may only be ignored if
